@@ -12,7 +12,11 @@
 (*       eidx   : Seq([t, r])        storage.entities (t = 0: no table)    *)
 (*       isTgt  : Seq(BOOLEAN)       storage.isTarget                      *)
 (*       tabs   : Seq(table)         storage.tables                        *)
-(*       archs  : Seq(archetype)     storage.archetypes (lookup by mask)   *)
+(*       archs  : Seq(archetype)     storage.archetypes                    *)
+(*       graph  : Seq(node)          graph.nodes: [mask, nbr: [comp ->     *)
+(*                                   node], arch (0: none yet)]            *)
+(*       cidx   : [comp -> Seq(arch)] storage.componentIndex               *)
+(*       acnt   : [comp -> Nat]      registry.Archetypes (rare component)  *)
 (*       cache  : Seq(cacheEntry)    cache.filters                         *)
 (*       err    : STRING             "" or the reason a Go panic was hit   *)
 (* table     = [arch, rows: Seq(handle), col: [comp -> Seq(value)] (length *)
@@ -58,12 +62,14 @@ NewTable(ai, comps, tg, cap) ==
 
 NewArch(mask) ==
     [mask |-> mask, comps |-> SortComps(mask), tables |-> <<>>, freeT |-> <<>>,
-     relT |-> [c \in mask \cap RelSet |-> EmptyFn], tgtT |-> EmptyFn]
+     relT |-> [c \in mask \cap RelSet |-> EmptyFn], tgtT |-> EmptyFn, node |-> 1]
 
 InitStorage ==
     [pool |-> <<>>, pnext |-> 0, pavail |-> 0, eidx |-> <<>>, isTgt |-> <<>>,
      tabs |-> <<NewTable(1, <<>>, EmptyFn, CapN)>>,
      archs |-> <<[NewArch({}) EXCEPT !.tables = <<1>>]>>,
+     graph |-> <<[mask |-> {}, nbr |-> EmptyFn, arch |-> 1]>>,
+     cidx |-> [c \in Comps |-> <<>>], acnt |-> [c \in Comps |-> 0],
      cache |-> <<>>, err |-> "",
      lk |-> [bits |-> [i \in 1..MaxLocks |-> 0], len |-> 0, next |-> 0, avail |-> 0, mask |-> {}],
      qs |-> EmptyFn]
@@ -156,12 +162,51 @@ TMatches(t, tg) == (DOMAIN tg = {}) \/ (DOMAIN t.tg = {}) \/ \A c \in DOMAIN tg 
 NumRel(a) == Cardinality(a.mask \cap RelSet)
 RelCols(a) == SelectSeq(a.comps, LAMBDA c : c \in RelSet)
 
+(***************************************************************************)
+(* Archetype graph (graph.go:37-156): Find removes the components of `rem` *)
+(* one by one, then adds those of `add`, following the neighbour edge of   *)
+(* the current node or, if there is none, finding / creating the node of   *)
+(* the resulting mask and linking both directions.                         *)
+(***************************************************************************)
+NodeOf(s, mask) == IF \E i \in DOMAIN s.graph : s.graph[i].mask = mask
+                   THEN CHOOSE i \in DOMAIN s.graph : s.graph[i].mask = mask ELSE 0
+
+GraphStep(r, c, m2) ==    \* r = [s, n]: from node n over component c to the node of mask m2
+    LET s == r.s n == r.n IN
+    IF c \in DOMAIN s.graph[n].nbr THEN [s |-> s, n |-> s.graph[n].nbr[c]]
+    ELSE LET found == NodeOf(s, m2)
+             s1 == IF found # 0 THEN s
+                   ELSE [s EXCEPT !.graph = Append(@, [mask |-> m2, nbr |-> EmptyFn, arch |-> 0])]
+             nx == IF found # 0 THEN found ELSE Len(s1.graph)
+         IN [s |-> [s1 EXCEPT !.graph[nx].nbr = Merge(@, Single(c, n)), !.graph[n].nbr = Merge(@, Single(c, nx))],
+             n |-> nx]
+
+GraphFind(s0, start, rem, add) ==    \* rem, add: sequences of components
+    LET RECURSIVE Rem(_, _, _)
+        Rem(r, i, mask) == IF i > Len(rem) THEN [r |-> r, mask |-> mask]
+                           ELSE Rem(GraphStep(r, rem[i], mask \ {rem[i]}), i + 1, mask \ {rem[i]})
+        RECURSIVE Add(_, _, _)
+        Add(r, i, mask) == IF i > Len(add) THEN [r |-> r, mask |-> mask]
+                           ELSE Add(GraphStep(r, add[i], mask \cup {add[i]}), i + 1, mask \cup {add[i]})
+        a == Rem([s |-> s0, n |-> start], 1, s0.graph[start].mask)
+    IN Add(a.r, 1, a.mask).r
+
+\* storage.createArchetype :420-442: new archetype for a graph node, component index, archetype counts
+CreateArchetype(s, n) ==
+    LET mask == s.graph[n].mask ai == Len(s.archs) + 1 IN
+    [s EXCEPT !.archs = Append(@, [NewArch(mask) EXCEPT !.node = n]),
+              !.graph[n].arch = ai,
+              !.cidx = [c \in DOMAIN @ |-> IF c \in mask THEN Append(@[c], ai) ELSE @[c]],
+              !.acnt = [c \in DOMAIN @ |-> IF c \in mask THEN @[c] + 1 ELSE @[c]]]
+
 ArchOf(s, mask) == IF \E i \in DOMAIN s.archs : s.archs[i].mask = mask
                    THEN CHOOSE i \in DOMAIN s.archs : s.archs[i].mask = mask ELSE 0
 
-\* graph.Find* + createArchetype (storage.go:420-442): lookup by resulting mask
-FindOrCreateArch(s, mask) ==
-    IF ArchOf(s, mask) # 0 THEN s ELSE [s EXCEPT !.archs = Append(@, NewArch(mask))]
+\* findOrCreateTable* (storage.go:112-231), archetype part: traverse the graph from the archetype `from`
+FindOrCreateArchFrom(s0, from, rem, add) ==
+    LET r == GraphFind(s0, s0.archs[from].node, SortComps(rem), SortComps(add))
+    IN IF r.s.graph[r.n].arch # 0 THEN [s |-> r.s, a |-> r.s.graph[r.n].arch]
+       ELSE LET s2 == CreateArchetype(r.s, r.n) IN [s |-> s2, a |-> Len(s2.archs)]
 
 \* archetype.GetTable / getTableSlowPath :161-190.  tg must cover the archetype's relations.
 \* Returns a table id, 0 (none) or -1 (the Go code panics).
@@ -232,10 +277,11 @@ CreateTable(s, ai, tg) ==
           s2 == [s1 EXCEPT !.archs[ai] = AddTable(@, tid, tgA)]
       IN CacheAddTable(s2, tid)
 
-\* find the table for (mask, targets) or create it; returns [s, t]; t = 0 if the call panicked
-FindOrCreateTable(s0, mask, tg) ==
-    LET s  == FindOrCreateArch(s0, mask)
-        ai == ArchOf(s, mask)
+\* find the table for (archetype `from` - rem + add, targets) or create it; returns [s, t]; t = 0 if the call panicked
+FindOrCreateTable(s0, from, rem, add, tg) ==
+    LET fa == FindOrCreateArchFrom(s0, from, rem, add)
+        s  == fa.s
+        ai == fa.a
         t  == GetTable(s, ai, tg)
     IN IF t = -1 THEN [s |-> Fail(s, "relation targets must be fully specified"), t |-> 0]
        ELSE IF t # 0 THEN [s |-> s, t |-> t]
@@ -346,7 +392,7 @@ WriteVals(s, h, vals) ==
 
 \* World.newEntity (world_internal.go:19-38): find table, Get, Add, index, registerTargets
 BNew(s0, C, tg) ==
-    LET r == FindOrCreateTable(s0, C, tg) IN
+    LET r == FindOrCreateTable(s0, 1, {}, C, tg) IN
     IF ~Ok(r.s) THEN r.s
     ELSE LET h  == PoolPeek(r.s)
              s1 == PoolGet(r.s)
@@ -356,7 +402,7 @@ BNew(s0, C, tg) ==
 
 \* World.newEntities + storage.createEntities (world_internal.go:42-50, storage.go:398-417)
 BNewBatch(s0, n, C, tg) ==
-    LET r == FindOrCreateTable(s0, C, tg)
+    LET r == FindOrCreateTable(s0, 1, {}, C, tg)
         RECURSIVE Go(_, _)
         Go(s, k) == IF k = 0 THEN s
                     ELSE LET h  == PoolPeek(s)
@@ -379,9 +425,8 @@ BCopy(s, e) ==
 \* World.add / remove / exchange: new mask and targets, then move
 BExchange(s0, h, add, rem, tg) ==
     LET ot   == s0.tabs[TableOf(s0, h)]
-        mask == (s0.archs[ot.arch].mask \ rem) \cup add
         ntg  == Merge(Drop(ot.tg, rem), tg)
-        r    == FindOrCreateTable(s0, mask, ntg)
+        r    == FindOrCreateTable(s0, ot.arch, rem, add, ntg)
     IN IF ~Ok(r.s) THEN r.s ELSE RegisterTargets(MoveEntity(r.s, h, r.t), tg)
 
 \* World.setRelations (world_internal.go:368-436)
@@ -411,8 +456,29 @@ BKill(s, h) ==
 (***************************************************************************)
 (* Table selection of queries and batches.                                 *)
 (***************************************************************************)
-\* storage.getCacheTables :675-699 / the uncached walk of queries and getBatchTables :650-671
+\* registry.rareComponent :124-136: the required component with the fewest archetypes (first wins a tie)
+RareComp(s, with) ==
+    LET ws == SortComps(with) IN
+    ws[CHOOSE i \in DOMAIN ws : \A j \in DOMAIN ws : s.acnt[ws[i]] < s.acnt[ws[j]] \/ (s.acnt[ws[i]] = s.acnt[ws[j]] /\ i <= j)]
+
+\* the archetypes a query scans: those of its rarest required component (query_gen.go nextArchetype),
+\* all archetypes for a filter without required components
+ScanArchs(s, flt) == IF flt.with = {} THEN [i \in DOMAIN s.archs |-> i] ELSE s.cidx[RareComp(s, flt.with)]
+
+\* the uncached walk of queries (query_gen.go:389-437, query_count.go)
 WalkTables(s, flt, tg) ==
+    LET as == ScanArchs(s, flt)
+        RECURSIVE Go(_, _)
+        Go(k, acc) ==
+            IF k > Len(as) THEN acc
+            ELSE LET a == s.archs[as[k]] IN
+                 IF ~MatchesComps(flt, a.mask) THEN Go(k + 1, acc)
+                 ELSE IF NumRel(a) = 0 THEN Go(k + 1, Append(acc, a.tables[1]))
+                 ELSE Go(k + 1, acc \o SelectSeq(GetTables(s, as[k], tg), LAMBDA t : TMatches(s.tabs[t], tg)))
+    IN Go(1, <<>>)
+
+\* storage.getCacheTables :675-699 and the uncached getBatchTables :650-671 scan all archetypes
+WalkAllTables(s, flt, tg) ==
     LET RECURSIVE Go(_, _)
         Go(ai, acc) ==
             IF ai > Len(s.archs) THEN acc
@@ -442,7 +508,7 @@ QueryRows(s, flt, fid) == FlattenRows(s, QueryTables(s, flt, fid))
 
 \* cache.register (cache.go:46-61) / unregister (:64-82)
 BRegF(s, fid, flt) ==
-    [s EXCEPT !.cache = Append(@, [fid |-> fid, flt |-> flt, tables |-> WalkTables(s, flt, flt.ft)])]
+    [s EXCEPT !.cache = Append(@, [fid |-> fid, flt |-> flt, tables |-> WalkAllTables(s, flt, flt.ft)])]
 BUnregF(s, fid) ==
     LET i == CacheSlot(s, fid) last == Len(s.cache) IN
     [s EXCEPT !.cache = SubSeq(IF i = last THEN s.cache ELSE [s.cache EXCEPT ![i] = s.cache[last]], 1, last - 1)]
@@ -471,9 +537,8 @@ BExchangeBatch(s0, flt, fid, add, rem, tg) ==
         Plan(s, i, acc) ==
             IF i > Len(ts) \/ ~Ok(s) THEN [s |-> s, plan |-> acc]
             ELSE LET ot   == s.tabs[ts[i]]
-                     mask == (s.archs[ot.arch].mask \ rem) \cup add
                      ntg  == Merge(Drop(ot.tg, rem), tg)
-                     r    == FindOrCreateTable(s, mask, ntg)
+                     r    == FindOrCreateTable(s, ot.arch, rem, add, ntg)
                  IN Plan(r.s, i + 1, Append(acc, <<ts[i], r.t>>))
         p == Plan(s0, 1, <<>>)
         RECURSIVE Exec(_, _)
@@ -686,9 +751,31 @@ RelIndexOK(s) ==
 \* C05: every cache entry lists exactly the active tables the uncached walk finds, once each
 CacheOK(s) ==
     \A i \in DOMAIN s.cache :
-       LET e == s.cache[i] fresh == WalkTables(s, e.flt, e.flt.ft) IN
+       LET e == s.cache[i] fresh == WalkAllTables(s, e.flt, e.flt.ft) IN
        /\ \A k, l \in DOMAIN e.tables : e.tables[k] = e.tables[l] => k = l
        /\ SetOf(e.tables) = SetOf(fresh)
+
+\* C01: the archetype graph: node masks are unique, an edge over c joins masks that differ exactly by c (both
+\* directions), a node's archetype has the node's mask, every archetype has a node
+GraphOK(s) ==
+    /\ \A i, j \in DOMAIN s.graph : s.graph[i].mask = s.graph[j].mask => i = j
+    /\ \A i \in DOMAIN s.graph : \A c \in DOMAIN s.graph[i].nbr :
+          LET j == s.graph[i].nbr[c] IN
+          /\ j \in DOMAIN s.graph
+          /\ (s.graph[j].mask = s.graph[i].mask \cup {c} \/ s.graph[j].mask = s.graph[i].mask \ {c})
+          /\ s.graph[j].mask # s.graph[i].mask
+          /\ c \in DOMAIN s.graph[j].nbr /\ s.graph[j].nbr[c] = i
+    /\ \A i \in DOMAIN s.graph : s.graph[i].arch # 0 =>
+          s.graph[i].arch \in DOMAIN s.archs /\ s.archs[s.graph[i].arch].mask = s.graph[i].mask
+    /\ \A a \in DOMAIN s.archs : s.archs[a].node \in DOMAIN s.graph /\ s.graph[s.archs[a].node].arch = a
+
+\* C03: the component index lists, for each component, exactly the archetypes containing it (once), and the
+\* archetype counts used to pick the rarest component agree with it
+CompIndexOK(s) ==
+    \A c \in Comps :
+        /\ SetOf(s.cidx[c]) = {a \in DOMAIN s.archs : c \in s.archs[a].mask}
+        /\ Len(s.cidx[c]) = Cardinality(SetOf(s.cidx[c]))
+        /\ s.acnt[c] = Len(s.cidx[c])
 
 \* C15 (capacity clause), evaluated right after an unbounded Shrink
 CapBoundsOK(s) ==
